@@ -73,7 +73,7 @@ Lemma check_step_sound o poff pws H p off ws r :
   result_ok o (abs_step H p) p r /\
   (p = PCompact -> tb_end off ws = tb_end poff pws).
 Proof.
-  intros T Hw E. unfold check_step in E. cbv zeta in E.
+  intros T Hw E. unfold check_step, check_step_gen in E. cbv zeta in E.
   repeat (apply andb_true_iff in E; destruct E as [E ?]).
   rename H0 into Cop, H1 into Cst, H2 into Cend, H3 into Chd, H4 into Cpass, H5 into Cle.
   apply Z.eqb_eq in E. apply Z.leb_le in Cle. apply Z.leb_le in Cend.
@@ -110,7 +110,8 @@ Proof.
     + exact E.
     + exact Hge.
     + exact Hw.
-    + intros w t Ews. subst ws. apply negb_true_iff in Chd. apply Z.eqb_neq in Chd. exact Chd.
+    + intros w t Ews. subst ws. cbn [negb orb head_okb] in Chd.
+      apply negb_true_iff in Chd. apply Z.eqb_neq in Chd. exact Chd.
     + intros j Hj. destruct (Z_lt_le_dec j poff) as [A|A].
       * destruct (ti_below _ _ _ _ T j A) as [B|B]; [left; exact B|right; apply memP_abs_step; exact B].
       * right. apply Hpass. lia.
@@ -200,15 +201,15 @@ Lemma check_step_complete o poff pws H p off ws r :
   (p = PCompact -> tb_end off ws = tb_end poff pws) ->
   check_step o (poff, pws) (abs_step H p) p (off, ws, r) = true.
 Proof.
-  intros T Hle Hend Hpass Hres Hcmp. unfold check_step. cbv zeta.
+  intros T Hle Hend Hpass Hres Hcmp. unfold check_step, check_step_gen. cbv zeta.
   rewrite (proj2 (Z.eqb_eq _ _) (ti_align _ _ _ _ T)).
   rewrite (proj2 (Z.leb_le _ _) Hle).
   assert (C3 : forallb (member o (abs_step H p)) (zrange poff (Z.to_nat (off - poff))) = true).
   { apply forallb_forall. intros x Hx. apply s_zrange_In in Hx. apply s_member_iff. right.
     apply Hpass. lia. }
   rewrite C3.
-  assert (C4 : match ws with w :: _ => negb (w =? all_ones_word) | [] => true end = true).
-  { destruct ws as [|w t] eqn:E; [reflexivity|].
+  assert (C4 : negb true || head_okb ws = true).
+  { cbn [negb orb]. unfold head_okb. destruct ws as [|w t] eqn:E; [reflexivity|].
     pose proof (ti_head _ _ _ _ T w t eq_refl) as Hne. unfold all_ones_word.
     destruct (Z.eqb_spec w (2 ^ 64 - 1)); [contradiction|reflexivity]. }
   rewrite C4.
